@@ -45,6 +45,38 @@ func genC03(t *rapid.T) kit.History {
 		u.Extras = []string{"", "x1", "x2", "x3"}
 		u.Fields = append(append([]string{}, u.Fields...), kit.FExtra)
 	}
+	h := genC03History(t, cfg, u, withKids)
+	if rapid.IntRange(0, 3).Draw(t, "successorSwap") == 0 {
+		// one transaction: a successor that takes over a role held by exactly one entity is created, then the old
+		// holder is deleted; the role stays indexed for the successor
+		m := replayModel(h)
+		for _, old := range sortedIDs(m.Ents["things"]) {
+			e := m.Ents["things"][old]
+			if len(e.Roles) == 0 {
+				continue
+			}
+			role := e.Roles[0]
+			holders := 0
+			for _, o := range m.Ents["things"] {
+				for _, r := range o.Roles {
+					if r == role {
+						holders++
+					}
+				}
+			}
+			if _, taken := m.Ents["things"]["successor"]; holders != 1 || taken {
+				continue
+			}
+			h.Txs = append(h.Txs, kit.TxSpec{System: true, Ops: []kit.Op{
+				{Kind: "create", Store: "things", ID: "successor", Spec: &kit.EntSpec{Name: "successor-name", Roles: []string{role}, Serial: 424242}},
+				{Kind: "delete", Store: "things", ID: old}}})
+			break
+		}
+	}
+	return h
+}
+
+func genC03History(t *rapid.T, cfg kit.WorldCfg, u kit.EntUniverse, withKids bool) kit.History {
 	return kit.GenHistory(t, cfg, 25, 4, true, 60, func(t *rapid.T, l string, m *kit.Model) kit.Op {
 		store := "things"
 		if withKids {
@@ -195,6 +227,31 @@ func runC03(h kit.History) kit.Result {
 					}
 					if len(got) != len(holders) || n != len(holders) {
 						lookupErr = fmt.Errorf("inside a writing transaction the set index lists %q (cursor: %d elements) for role %q, the model has %d holders", got, n, v, len(holders))
+					}
+				}
+				// the entities that hold all of several roles, asked for in an order that is not the sorted one
+				for _, want3 := range [][]string{{"r2", "r1", "R1"}, {"c", "ab", "a"}, {"r2", "r1"}, {"bc", "a", "R1"}} {
+					var holders []string
+					for id, e := range m.Ents["things"] {
+						all := true
+						for _, v := range want3 {
+							has := false
+							for _, r := range e.Roles {
+								if r == v {
+									has = true
+								}
+							}
+							all = all && has
+						}
+						if all {
+							holders = append(holders, id)
+						}
+					}
+					sort.Strings(holders)
+					got := w.Stores["things"].FindMatching(ctx.Tx(), w.SetIdx["things."+kit.FRoles], want3)
+					sort.Strings(got)
+					if fmt.Sprint(got) != fmt.Sprint(holders) && !(len(got) == 0 && len(holders) == 0) {
+						lookupErr = fmt.Errorf("FindMatching(%q) = %q, the model's holders of all of them are %q", want3, got, holders)
 					}
 				}
 				if id := w.Unique["things."+kit.FName].Read(ctx.Tx(), []byte("name-nobody-has")); id != nil {
